@@ -83,7 +83,7 @@ TYPES = {
     "itr": ([2], lambda l: l[0] <= l[1]),
 }
 # number of construction routes the harness offers per type (the model is a value model: routes do not matter)
-ROUTES = {"opt": 3, "eith": 3, "var": 3, "tup": 2, "arr": 2, "earr": 2, "rec": 2, "sti": 2, "recu": 5, "vec1": 3, "vec2": 3,
+ROUTES = {"unit": 1, "bf3": 1, "opt": 3, "eith": 3, "var": 3, "tup": 2, "arr": 2, "earr": 2, "rec": 2, "sti": 2, "recu": 5, "vec1": 3, "vec2": 3,
           "vec3": 3, "vec4": 3, "dim2": 3, "dim3": 3, "mat22": 2, "mat23": 2, "box2": 3, "box3": 3, "sph2": 2, "sph3": 2,
           "grid": 4, "grid1": 4, "grid3": 4, "tree": 3, "rv": 5, "ref": 3, "sp": 3, "itr": 2}
 # maxlen for the route-pair digests (quick, thorough) where the full domain would be too large
@@ -201,7 +201,7 @@ def refine(op):
             for v in vals:
                 a, b = list(base), list(base)
                 a[pos], b[pos] = u, v
-                out.append(f"relr {t[1]} {u & 3} {v & 1} {enc(a)} {enc(b)}")
+                out.append(f"relr {t[1]} {u & 11} {v & 9} {enc(a)} {enc(b)}")
         return out
     if t[0] == "tri":
         d = domain(t[1], int(t[2]))
@@ -431,8 +431,10 @@ def batches(rng, tier):
         step = 1
         if len(d) > 400 and not thorough:
             step = 5            # 729-value domains: every 5th left operand, all right operands
-        ops = [f"relsr {ty} {ml} {ra} {rb} {enc(a)}" for ra in range(nr) for rb in range(nr) if (ra, rb) != (0, 0)
-               for a in d[(ra * nr + rb) % step::step]]
+        rp = [(ra, rb) for ra in range(nr) for rb in range(nr) if (ra, rb) != (0, 0)]
+        # + 8: the object is constructed inside a buffer pre-filled with a byte pattern (padding / inactive bytes differ)
+        rp += [(8 + ra, (ra + 1) % nr) for ra in range(nr)] + [(ra, 8 + ra) for ra in range(nr)] + [(8, 8)]
+        ops = [f"relsr {ty} {ml} {ra} {rb} {enc(a)}" for (ra, rb) in rp for a in d[(ra * nr + rb) % step::step]]
         yield Batch(f"routes-{ty}", ops, exhaustive=(step == 1),
                     note=f"all ordered pairs over {len(d)} values for every pair of the {nr} construction routes "
                          "(constructor, assignment over another value, element-wise writes, insert + erase, reserve / resize …)")
@@ -440,7 +442,7 @@ def batches(rng, tier):
     ops = []
     for ty in TYPES:
         ml = pairs_maxlen(ty, thorough)
-        ops += [f"selfs {ty} {ml} {ra}" for ra in range(ROUTES.get(ty, 1))]
+        ops += [f"selfs {ty} {ml} {ra}" for ra in list(range(ROUTES.get(ty, 1))) + [8]]
     yield Batch("self", ops, exhaustive=True, note="x == x, x < x, … hash(x) with the same object on both sides, every value, every route")
     # ---- boundary values in one component
     ops = []
